@@ -750,3 +750,41 @@ impl MemBalancerTrigger {
         self.current_heap_pages.store(new_heap, Ordering::Relaxed);
     }
 }
+
+/// Verification hooks: drive the heap-limit computation without an MMTk instance.
+#[cfg(mmtk_verif)]
+impl MemBalancerTrigger {
+    pub fn verif_new(min_heap_pages: usize, max_heap_pages: usize) -> Self {
+        Self::new(min_heap_pages, max_heap_pages)
+    }
+
+    /// One end-of-GC step with the given statistics of the finished epoch.
+    #[allow(clippy::too_many_arguments)]
+    pub fn verif_step(
+        &self,
+        live: usize,
+        extra_reserve: usize,
+        allocation_pages: f64,
+        allocation_time: f64,
+        collection_pages: f64,
+        collection_time: f64,
+    ) {
+        self.access_stats(|stats| {
+            stats.allocation_pages = allocation_pages;
+            stats.allocation_time = allocation_time;
+            stats.collection_pages = collection_pages;
+            stats.collection_time = collection_time;
+            self.compute_new_heap_limit(live, extra_reserve, stats);
+        });
+        // as on_gc_end does
+        self.pending_pages.store(0, Ordering::SeqCst);
+    }
+
+    pub fn verif_pending(&self, pages: usize) {
+        self.pending_pages.fetch_add(pages, Ordering::SeqCst);
+    }
+
+    pub fn verif_current(&self) -> usize {
+        self.current_heap_pages.load(Ordering::Relaxed)
+    }
+}
